@@ -328,12 +328,12 @@ theorem pstep_cases {cfg : Cfg} {p p' : PState} {db db' : Db} (h : pstep cfg p d
     | needsAgo id term thr now desc r =>
       simp only [] at h
       injection h with h; injection h with h1 h2; subst h1 h2; simp only [effOpCore]; exact .read rfl rfl
-    | uinfoRow id term =>
+    | needs id term thr now =>
       simp only [] at h
       split at h
+      · cases h
       · injection h with h; injection h with h1 h2; subst h1 h2; simp only [effOpCore]; exact .read rfl rfl
-      · injection h with h; injection h with h1 h2; subst h1 h2; simp only [effOpCore]; exact .read rfl rfl
-    | uinfoAgo id term r =>
+    | uinfo id term =>
       simp only [] at h
       injection h with h; injection h with h1 h2; subst h1 h2; simp only [effOpCore]; exact .read rfl rfl
     | info id =>
@@ -342,9 +342,10 @@ theorem pstep_cases {cfg : Cfg} {p p' : PState} {db db' : Db} (h : pstep cfg p d
       · cases h
       · injection h with h; injection h with h1 h2; subst h1 h2; simp only [effOpCore]; exact .read rfl rfl
     | count todo u acc =>
-      cases todo with
-      | nil => simp only [] at h; injection h with h; injection h with h1 h2; subst h1 h2; simp only [effOpCore]; exact .read rfl rfl
-      | cons s todo => simp only [] at h; injection h with h; injection h with h1 h2; subst h1 h2; simp only [effOpCore]; exact .read rfl rfl
+      match todo with
+      | [] => simp only [] at h; injection h with h; injection h with h1 h2; subst h1 h2; simp only [effOpCore]; exact .read rfl rfl
+      | [s] => simp only [] at h; injection h with h; injection h with h1 h2; subst h1 h2; simp only [effOpCore]; exact .read rfl rfl
+      | s :: s' :: todo => simp only [] at h; injection h with h; injection h with h1 h2; subst h1 h2; simp only [effOpCore]; exact .read rfl rfl
     | finished r =>
       simp only [] at h
       injection h with h; injection h with h1 h2; subst h1 h2; simp only [effOpCore]; exact .read rfl rfl
